@@ -26,7 +26,7 @@ static Fields gen(Tape &t) {
   else if (src == 1) s = g_degenerate(t);
   else {
     u32s n = g_noise(t, false);
-    if (all_narrow(n) && uriref_matcher().run(n).accepted) for (char32_t c : n) s += (char)c;
+    if (all_narrow(n) && (uriref_matcher().run(n).accepted || t.coin())) for (char32_t c : n) s += (char)c;  // half of the rejected texts are kept: they must not parse
     else { s = g_uri(t); src = 0; }
   }
   f.set("text", s);
@@ -101,8 +101,20 @@ template <class A> static Verdict check_type(const std::string &text, const std:
   return Verdict::pass();
 }
 
+// "For every accepted input ..." presupposes that only members of the grammar are accepted: a text outside it that parses
+// has no RFC 3986 reading to reproduce (what it recomposes to cannot be "the parsed text" of any URI reference).
+template <class A> static bool parses(const std::string &text) {
+  Parsed<A> p;
+  parse_via<A>(p, PE_SINGLE_EX, widen<typename A::Ch>(text));
+  return p.rc == 0;
+}
 static Verdict check_text(const std::string &text, int src) {
-  if (!uriref_matcher().matches(text)) return Verdict::discard();
+  if (!uriref_matcher().matches(text)) {
+    if (text.find('\0') != std::string::npos) return Verdict::discard();
+    if (parses<Api<char>>(text) || parses<Api<wchar_t>>(text)) return Verdict::fail("'" + esc(text) + "' is not a URI reference (RFC 3986 Appendix A) and is accepted: there is no parsed text to reproduce");
+    stats().hit("outside_the_grammar_and_refused");
+    return Verdict::discard();
+  }
   MUri m = m_split(text);
   std::string expected = m_recompose(m);
   if (!(m.hasAuth && m.hostKind == HK_IP6)) {
